@@ -24,6 +24,9 @@ colvarproxy_verif::colvarproxy_verif()
   set_integration_timestep(1.0);
   set_target_temperature(300.0);
 
+  boundaries_type = boundaries_non_periodic;
+  reset_pbc_lattice();
+
   colvars = new colvarmodule(this);
   colvars->cv_traj_freq = 0;
   colvars->restart_out_freq = 0;
